@@ -453,6 +453,58 @@ pub fn run(a: &Args) {
             break;
         }
     }
+    // 5. the last two values dropped at the same instant on two threads (spin rendezvous)
+    let pairs = if a.thorough() { 400_000 } else { 60_000 };
+    {
+        use std::sync::atomic::{AtomicPtr, AtomicUsize};
+        let slots: [AtomicPtr<SharedBytes>; 2] = [AtomicPtr::new(std::ptr::null_mut()), AtomicPtr::new(std::ptr::null_mut())];
+        let go = AtomicUsize::new(0);
+        let done = AtomicUsize::new(0);
+        let stop = std::sync::atomic::AtomicBool::new(false);
+        std::thread::scope(|s| {
+            for w in 0..2 {
+                let (slots, go, done, stop) = (&slots, &go, &done, &stop);
+                s.spawn(move || {
+                    let mut round = 0usize;
+                    loop {
+                        round += 1;
+                        while go.load(SeqCst) < round {
+                            if stop.load(SeqCst) {
+                                return;
+                            }
+                            std::hint::spin_loop();
+                        }
+                        let p = slots[w].swap(std::ptr::null_mut(), SeqCst);
+                        let v: SharedBytes = unsafe { std::ptr::read(p) };
+                        ledger::traced(move || drop(v));
+                        done.fetch_add(1, SeqCst);
+                    }
+                });
+            }
+            // the two values travel through plain (untraced) boxes that the main thread owns
+            let mut boxes: [Box<std::mem::MaybeUninit<SharedBytes>>; 2] = [Box::new(std::mem::MaybeUninit::uninit()), Box::new(std::mem::MaybeUninit::uninit())];
+            for r in 1..=pairs {
+                let v = ledger::traced(|| if r % 2 == 0 { SharedBytes::from_slice(&[1, 2, 3]) } else { SharedBytes::from_vec(vec![4, 5, 6, 7]) });
+                let c = ledger::traced(|| v.clone());
+                boxes[0].write(v);
+                boxes[1].write(c);
+                slots[0].store(boxes[0].as_mut_ptr(), SeqCst);
+                slots[1].store(boxes[1].as_mut_ptr(), SeqCst);
+                go.store(r, SeqCst);
+                while done.load(SeqCst) < 2 * r {
+                    std::hint::spin_loop();
+                }
+            }
+            stop.store(true, SeqCst);
+        });
+        if ledger::live_blocks() != 0 {
+            bad.push(format!(
+                "{} blocks still allocated after {} rounds of dropping the last two clones of a value on two threads at once",
+                ledger::live_blocks(),
+                pairs
+            ));
+        }
+    }
     if MISMATCH.load(SeqCst) != 0 {
         bad.push(format!("{} blocks were given back with another layout than they were allocated with", MISMATCH.load(SeqCst)));
     }
@@ -480,8 +532,8 @@ pub fn run(a: &Args) {
     std::fs::write(
         format!("{}/bytesdiff.summary.json", a.out),
         format!(
-            "{{\"engine\": \"bytesdiff\", \"explain\": {{\"bytes_cases\": \"bytes_explain\", \"utf8_cases\": \"utf8_explain\"}}, \"evaluations\": {}, \"distinct_nontrivial\": {}, \"samples\": {}, \"distribution\": {{\"constructor_paths\": {}, \"ops\": {}, \"utf8_inputs\": {}, \"utf8_accepted\": {}, \"comparisons\": {}, \"storm_rounds\": {}}}}}",
-            cases.total() as u64 + cmp_evals + rounds as u64,
+            "{{\"engine\": \"bytesdiff\", \"explain\": {{\"bytes_cases\": \"bytes_explain\", \"utf8_cases\": \"utf8_explain\"}}, \"evaluations\": {}, \"distinct_nontrivial\": {}, \"samples\": {}, \"distribution\": {{\"constructor_paths\": {}, \"ops\": {}, \"utf8_inputs\": {}, \"utf8_accepted\": {}, \"comparisons\": {}, \"storm_rounds\": {}, \"simultaneous_last_drops\": {}}}}}",
+            cases.total() as u64 + cmp_evals + rounds as u64 + pairs as u64,
             cases.distinct_nontrivial(),
             cases.samples_json(),
             jmap(&paths),
@@ -489,7 +541,8 @@ pub fn run(a: &Args) {
             inputs.len(),
             accepted,
             cmp_evals,
-            rounds
+            rounds,
+            pairs
         ),
     )
     .unwrap();
